@@ -86,7 +86,7 @@ int main(int argc, char **argv) {
         int quick = argv[2][0] == 'q'; vt_seed(strtoull(argv[3], 0, 10) + 8); vt_open(argv[4]);
         for (int res = 3; res <= 15; res++) {
             CellVec cv = {0};
-            cv_pentagon_strata(&cv, res, quick ? 2 : 4); cv_seam_cells(&cv, res, quick ? 12 : 150); cv_random_cells(&cv, res, quick ? 15 : 150); cv_sparse_digit_sample(&cv, res, quick ? 6 : 40); cv_coarse_boundary_sample(&cv, res, quick ? 6 : 40);
+            cv_pentagon_strata(&cv, res, quick ? 2 : 4); cv_seam_cells(&cv, res, quick ? 12 : 150); cv_random_cells(&cv, res, quick ? 15 : 150); cv_sparse_digit_sample(&cv, res, quick ? 6 : 40); cv_coarse_boundary_sample(&cv, res, quick ? 6 : 40); if (res >= 8 || !quick) cv_face_centre_cells(&cv, res, quick ? 1 : 2);
             cv_polar_cells(&cv, res); cv_antimeridian_cells(&cv, res, quick ? 4 : 24);
             for (int64_t i = 0; i < cv.n; i++) ev_boundary(cv.v[i]);
             cv_free(&cv);
